@@ -46,7 +46,7 @@ ODD = [
     "plain", "no_choices", "no_states", "single_label_state", "single_label_choice", "single_point_cont_state", "single_point_cont_choice",
     "stoch_nodeps", "stoch_period_only", "restricted_stochastic", "filter_states_only", "only_cont_choices", "only_disc_choices",
     "next_for_nonstate", "state_only_in_transitions", "cont_var_in_filter", "name_contains_next", "filter_through_aux",
-    "two_filters_one_state_only", "constant_aux", "log_state_and_choice",
+    "two_filters_one_state_only", "constant_aux", "log_state_and_choice", "transition_into_excluded_state",
 ]
 
 
@@ -220,6 +220,9 @@ def odd_source(odd, T):
     elif odd == "filter_states_only":
         F["sd_filter"] = "def sd_filter(s):\n    return s < 2"
         F["next_s"] = "def next_s(s, d):\n    return jnp.clip(s + d, 0, 1)"
+    elif odd == "transition_into_excluded_state":
+        # the filter declares s = 2 impossible, but next_s can reach it (inconsistent specification)
+        F["sd_filter"] = "def sd_filter(s, d):\n    return jnp.logical_and(s < 2, d >= 0)"
     elif odd == "only_cont_choices":
         choices = [("c", c_grid)]
         F["utility"] = "def utility(s, w, c, a):\n    return jnp.log(c) + a * s + 0.01 * w"
@@ -283,7 +286,7 @@ def fill_params(tpl, T):
     return out
 
 
-def run_to_completion(model, n_agents, label, case_info):
+def run_to_completion(model, n_agents, label, case_info, params_override=None):
     """Returns (violations, stage reached, exception type name)."""
     import jax.numpy as jnp
     from lcm.entry_point import get_lcm_function
@@ -299,7 +302,7 @@ def run_to_completion(model, n_agents, label, case_info):
         if isinstance(e, ok_types):
             return [], "rejected:get_lcm_function", type(e).__name__
         return [violation("rejected-or-runs", "get_lcm_function", "EXC:" + type(e).__name__, f"{label}: {type(e).__name__} at function creation is not a sanctioned rejection: {str(e)[:250]}", **case_info)], "get_lcm_function", type(e).__name__
-    params = fill_params(tpl, model.n_periods)
+    params = fill_params(tpl, model.n_periods) if params_override is None else params_override
     try:
         stage = "solve"
         V = solve(params)
@@ -341,7 +344,9 @@ def _run_odd(case):
 
 def _run_accept(case):
     b = e1.Built(case["fv"], case["seed"])
-    viols, stage, exc = run_to_completion(b.model, 3, f"family model {case['id']}", {})
+    # family members are supported models WITH their own parameter valuation (e.g. structural zeros in the
+    # transition array of h=excl, so that the filter-excluded combination is never reached)
+    viols, stage, exc = run_to_completion(b.model, 3, f"family model {case['id']}", {}, params_override=b.params("default"))
     return outcome(status="violation" if viols else "ok", violations=viols, states=1, transitions=6, traces=1, digest=digest(stage, exc, case["id"]), counters={("completed" if stage == "completed" else "other"): 1})
 
 
